@@ -186,3 +186,69 @@ theorem clamp_eq (d : Dist) (raw : F64) :
 
 end C13
 end Mb
+
+namespace Mb
+namespace C13
+open Fp
+
+theorem unit64_nonneg (w : UInt64) : 0 ≤ unit64 w := by unfold unit64; positivity
+
+/-- what validation gives for a proper range: real bounds `a < b` and a finite scale `s ≥ 0` -/
+theorem uniform_range_facts {lo hi : F64} (h : Validate.distType (.uniform lo hi) = true)
+    (hne : feq (val64 lo) (val64 hi) = false) :
+    ∃ a b s : ℚ, val64 lo = .fin a ∧ val64 hi = .fin b ∧ a < b ∧
+      sub f64 (val64 hi) (val64 lo) = .fin s ∧ 0 ≤ s := by
+  have hc := ctorOK_of_validate h
+  simp only [ctorOK, hne, Bool.false_eq_true, ↓reduceIte, Bool.and_eq_true] at hc
+  obtain ⟨⟨⟨h1, h2⟩, h3⟩, h4⟩ := hc
+  generalize hl : val64 lo = l at *
+  generalize hh : val64 hi = u at *
+  rcases l with _ | _ | a <;> simp only [finite, Bool.false_eq_true] at h2
+  rcases u with _ | _ | b <;> simp only [finite, Bool.false_eq_true] at h3
+  have hab : a < b := by simpa using h1
+  have hs : sub f64 (.fin b) (.fin a) = f64.round (b - a) := by simp [sub, neg, add, sub_eq_add_neg]
+  rw [hs] at h4 ⊢
+  rcases Fmt.round_of_nonneg f64 (by linarith : 0 ≤ b - a) with hr | ⟨hr, hnn⟩
+  · rw [hr] at h4; simp [finite] at h4
+  · exact ⟨a, b, _, rfl, rfl, hab, hr, hnn⟩
+
+/-- `debug_assert!(low <= res)` inside the `gen_range` loop cannot fire -/
+theorem uniformRes_ge_low {lo hi : F64} (h : Validate.distType (.uniform lo hi) = true)
+    (hne : feq (val64 lo) (val64 hi) = false) (w : UInt64) :
+    le (val64 lo) (uniformRes lo hi w) = true := by
+  obtain ⟨a, b, s, hl, hh, _, hs, hs0⟩ := uniform_range_facts h hne
+  have hself := val64_round_self lo hl
+  unfold uniformRes
+  simp only []
+  rw [hs, hl]
+  simp only [mul]
+  have hv := unit64_nonneg w
+  rcases Fmt.round_of_nonneg f64 (mul_nonneg hv hs0) with hr | ⟨hr, hy⟩
+  · rw [hr]; rfl
+  · rw [hr]
+    simp only [add]
+    have := Fmt.round_mono f64 (by decide) (show a ≤ rne f64.p f64.emin (unit64 w * s) + a by linarith)
+    rwa [hself] at this
+
+/-- a word whose 52 mantissa bits are all zero ends the loop at once with `low` -/
+theorem uniformF64_zero_word {lo hi : F64} (h : Validate.distType (.uniform lo hi) = true)
+    (hne : feq (val64 lo) (val64 hi) = false) (w : UInt64) (hw : w.toNat / 2 ^ 12 = 0) :
+    uniformF64 lo hi w = some (val64 lo) := by
+  obtain ⟨a, b, s, hl, hh, hab, hs, _⟩ := uniform_range_facts h hne
+  have hself := val64_round_self lo hl
+  have hu : unit64 w = 0 := by unfold unit64; rw [hw]; simp
+  have hres : uniformRes lo hi w = .fin a := by
+    unfold uniformRes
+    simp only []
+    rw [hs, hl]
+    simp only [hu, mul, zero_mul]
+    have h0 : f64.round 0 = .fin 0 := Fmt.round_eq_self_of_rep f64 (rep_zero _ _) (pow2_pos _) (by have := pow2_pos f64.emax; linarith)
+    rw [h0]
+    simp only [add, zero_add]
+    exact hself
+  unfold uniformF64
+  rw [hres, hh, hl]
+  simp [hab]
+
+end C13
+end Mb
